@@ -3,6 +3,7 @@ import os, sys
 sys.path.insert(0, os.path.join(os.path.dirname(os.path.abspath(__file__)), '..'))
 from go2v_hook import go2v_hook
 CONF = {
+    'coq_sample': 10,   # cases re-evaluated inside Coq by vm_compute against the extracted runner's output
     'pre': [go2v_hook],
     'interesting': ['reused-buffer', 'odd-length', 'carry-out-of-16', 'csum-0000', 'csum-ffff', 'udp-zero-rule', 'flip-in-checksum-field'],
     'rule': 'Helper ops (FoldChecksum on boundary and random accumulators, ComputeChecksum on byte strings with boundary initial sums, lengths around 131070) and packet scenarios for each of UDP/TCP/ICMPv4/ICMPv6/IPv4-header/GRE x pseudo-header IPv4/IPv6 x checksum class {0x0000,0xffff,0x0001,0xfffe,random} (tails solved) x odd/even x four size classes plus payloads up to 70000 bytes: serialize with FixLengths+ComputeChecksums and compare the field with the model; decode and VerifyChecksum (directly and through NewPacket + SetNetworkLayerForChecksum + Packet.VerifyChecksums); every single-bit flip of packets <= 56 bytes and selected flips of larger ones; stored-value variants (0, 0xffff, +1, complement); truncated and random byte strings. Sequences of three packets are serialized into ONE reused SerializeBuffer, also one pre-filled with 0xaa/0xff/0x01 (tags reused-buffer, dirty-buffer), for all six emitters, plus targeted GRE flag combinations (checksum+ack, checksum+routing(+ack), key+seq, all) with non-zero field values.',
